@@ -26,6 +26,9 @@ def dispatch(prop, tier):
     if prop in ('C03', 'C05', 'C07', 'C18'):
         from harness.checks import cppfull
         return getattr(cppfull, 'run_' + prop.lower())(tier)
+    if prop in ('C08', 'C09'):
+        from harness.checks import cppraw
+        return getattr(cppraw, 'run_' + prop.lower())(tier)
     raise core.Infra('no check registered for %s' % prop)
 
 
